@@ -19,7 +19,7 @@ NormInst(p) == [orders |-> [c \in CIDS |-> p.orders[c]], net |-> p.net, priced |
 NormSt(p) == [trading |-> p.trading,
               conn |-> [global |-> p.conn.global,
                         ex |-> [e \in 1..NEX |-> [market |-> p.conn.ex[e].market, account |-> p.conn.ex[e].account]]],
-              inst |-> [i \in 1..4 |-> NormInst(p.inst[i])]]
+              inst |-> [i \in 1..NI |-> NormInst(p.inst[i])]]
 NormOut(o) == Out(o.k, ToSet(o.sentO), ToSet(o.sentC), ToSet(o.errO), ToSet(o.errC), ToSet(o.refO), ToSet(o.refC), o.ex)
 NoDup(o) == /\ Len(o.sentO) = Cardinality(ToSet(o.sentO)) /\ Len(o.sentC) = Cardinality(ToSet(o.sentC))
             /\ Len(o.errO) = Cardinality(ToSet(o.errO)) /\ Len(o.errC) = Cardinality(ToSet(o.errC))
@@ -47,9 +47,9 @@ TReset == /\ Rec[l].a = "Reset"
 Diff(r, post, t, d, rawT, rawD) ==
      (IF post.trading # r.st.trading THEN {"trading"} ELSE {})
   \cup (IF post.conn # r.st.conn THEN {"conn"} ELSE {})
-  \cup (IF \E i \in 1..4 : post.inst[i].orders # r.st.inst[i].orders THEN {"orders"} ELSE {})
-  \cup (IF \E i \in 1..4 : post.inst[i].net # r.st.inst[i].net THEN {"net"} ELSE {})
-  \cup (IF \E i \in 1..4 : post.inst[i].priced # r.st.inst[i].priced THEN {"priced"} ELSE {})
+  \cup (IF \E i \in 1..NI : post.inst[i].orders # r.st.inst[i].orders THEN {"orders"} ELSE {})
+  \cup (IF \E i \in 1..NI : post.inst[i].net # r.st.inst[i].net THEN {"net"} ELSE {})
+  \cup (IF \E i \in 1..NI : post.inst[i].priced # r.st.inst[i].priced THEN {"priced"} ELSE {})
   \cup (IF t.seq # seq THEN {"tick_seq"} ELSE {})
   \cup (IF t.terminal # r.tick.terminal \/ t.errs # r.tick.errs THEN {"tick_flags"} ELSE {})
   \cup (IF t.outputs # r.tick.outputs \/ \E j \in 1..Len(rawT.outputs) : ~NoDup(rawT.outputs[j]) THEN {"tick_outputs"} ELSE {})
